@@ -41,6 +41,14 @@ CLAIMED = {
    text="Rocq theorems over Callbacks.v (ConnectCallback / FrameChannelCallback of h11c.rs and the SOCKS Callback applied to the event sequences of Dispatch.process_request): for every listener protocol and session kind exactly one reply is written, it is the success reply iff on_connect ran, on_connect only follows a successful connector connect, success and failure replies are different messages, the SOCKS4/5 failure replies parse with the model's own reply reader leaving nothing behind, and for EVERY body the HTTP 503 parses as status line + headers whose Content-Length is the decimal length of exactly the bytes that follow. The shape facts the model stands on (single on_connect after connect, early returns, stream taken before the relay can fail, replied flag, flush after body) are regenerated from the source on every run (Gen_callbacks.v) and are proof obligations. Tie: the hook-built binary in normal mode on loopback; raw HTTP/SOCKS5/SOCKS4 clients driven through 16 routes x outcome classes and listener-level refusals against fake origins and upstream proxies; bytes received until EOF must equal the extracted model's client_bytes for the class; origin accept counts bound the number of success replies; slow-upstream timing; SOCKS5 UDP association idling out.",
    note="Partial: the text of the 503 body is a parameter; TLS listeners and the QUIC listener are not exercised end to end; the timing clause (only after) is a theorem about event order plus one slow-upstream timing scenario. Trusted: Coq kernel, translator regexes, extraction, fake endpoints in checks/e2e.py. Fixed finding: failure reply after success reply on a SOCKS5 UDP association (e98a482).",
    tech="Rocq proof over callback/event model + regenerated source-shape obligations + end-to-end correspondence against the real binary"),
+ "C01": dict(
+   text="Rocq theorems over Relay.v (copy_half / copy_bidi / drain_buffers of src/copy.rs as a small-step machine whose environment chooses the size of every read and of every splice): for every input, buffer size > 0, oracle and mode the destination always holds a prefix of the source (in order, once, unmodified), every run given enough steps delivers the whole input and then the end-of-stream mark, any number of tunnels under any interleaving never exchange a byte (world invariant by induction over the schedule), and - on top of chunking_irrelevant for every reader program - the tunnel starts exactly behind what the handshake decoder consumed for every segmentation of handshake + pipelined data; the pre-fix splice loop is shown to lose the tail (refutation witness). Loop shapes (write_all+flush, splice-out until pending = 0, drain before unwrapping, two halves) are regenerated from src/copy.rs and are proof obligations. Tie: two chained instances of the real binary (entry -> exit) so that every connector kind (direct, http, https, socks5, socks4, quic, load balancer) meets the matching listener kind; 7 client kinds incl. TLS and reverse; origins that echo / speak first / stream / close first / only read; sizes 0..6 MB, 1-byte to 70000-byte writes, early data glued to the handshake, 16 tunnels in flight with connection-tagged content; splice on/off, bufferSize 1..1 MiB; stalled-reader scan for partial splices.",
+   note="Partial: kernel, tokio, rustls and quinn are byte pipes with arbitrary chunking in the model; QUIC and TLS are exercised end to end only through the chain; tproxy needs CAP_NET_ADMIN and is not exercised. Fixed finding: splice mode dropped the tail of a stream after a partial splice into a full socket (dd0dab2). Trusted: Coq kernel, translator regexes, fake endpoints.",
+   tech="Rocq proof (small-step relay machine with environment oracles, invariant by induction, progress measure) + regenerated loop shape + end-to-end correspondence against chained real binaries"),
+ "C04": dict(
+   text="Rocq theorems over Relay.v: the destination's write side is shut down only after every byte before it was delivered, every finished direction does shut it down, a step of one direction never changes the other (the opposite direction keeps flowing), and buffered and splice loops give the same bytes and the same end-of-stream for any two environments; the pre-fix splice loop ends without the mark (refutation witness). The three shutdown sites (stream, frames, raw fd with SHUT_WR) are regenerated from src/copy.rs as proof obligations. Tie: chained real binaries in both I/O modes: client closes first while the origin streams, origin closes first and the client sends afterwards, both at once, RST from client, RST from origin, x 4 plain client kinds x 7 connectors; byte-exactness before each end-of-stream, time until the far endpoint observes it (3 s threshold), clean close after both ends, /api/history record with a final state, equality of outcomes between modes.",
+   note="Partial: promptness is a wall-clock threshold, not a theorem; TLS half-close from the client side cannot be produced with Python's ssl module (TLS legs inside the chain are exercised); RST is modelled only as end of run. Fixed finding: splice mode never relayed a half-close (f9fc70e). Noted, not demonstrated: common/splice.rs test_read_write_readiness compares poll revents by equality rather than by mask.",
+   tech="Rocq proof (relay machine: FIN ordering, mode equivalence) + regenerated shutdown sites + end-to-end correspondence in both I/O modes"),
  "C03": dict(
    text="Rocq round-trip theorems writer->reader for every destination codec (SOCKS5 address and full request exchange, SOCKS4/4a, RPFM frame header, SOCKS-UDP header, HTTP CONNECT line incl. Host header) with exact characterisation of refusals; every theorem also states that exactly the following bytes are left. Tie: three-stage differential correspondence (inbound decode, outbound encode, next-hop decode) against the real codecs plus the implementation-only oracle reader(writer(t)) = t or refused.",
    note="Trusted: Coq kernel, extraction, glue. std's SocketAddr text form (IPv6 in particular) is an explicit premise (sockaddr_text_ok) of the CONNECT theorem; invalid UTF-8 inbound hosts are replaced by from_utf8_lossy before rules see them and are outside the theorem domain (compared for panics only).",
